@@ -163,6 +163,10 @@ func genC19Matrix(r *h.Rng, tier string, idx int) *h.Plan {
 	all := append(append([]string{}, c19Mutating...), c19Revealing...)
 	kind := all[k%len(all)]
 	p := c19Base(state)
+	// (every other pass over the matrix keeps one caller context for the whole run)
+	if (idx/c19MatrixCount)%2 == 1 || r.P(1, 2) {
+		p.Cfg["shared_ctx"] = true
+	}
 	p.Cfg["cell"] = kind + "/" + prot + "/" + caller
 	c19Setup(p, prot)
 	p.Ops = append(p.Ops, c19Op(kind, caller, 0))
@@ -171,6 +175,9 @@ func genC19Matrix(r *h.Rng, tier string, idx int) *h.Plan {
 
 func genC19(r *h.Rng, tier string, idx int) *h.Plan {
 	p := c19Base(r.Pick([]string{"indexed", "linear"}))
+	if r.P(1, 3) {
+		p.Cfg["shared_ctx"] = true
+	}
 	c19Setup(p, "none")
 	all := append(append([]string{}, c19Mutating...), c19Revealing...)
 	n := r.Range(6, 20)
